@@ -72,7 +72,7 @@ Clause(e) ==
                want == IF failing = {} THEN "ok" ELSE "fail"
            IN  IF e.outcome # want
                THEN "check_mass_balance(" \o e.tol \o "): reported " \o e.outcome \o ", the contract says " \o want
-               ELSE IF want = "fail" /\ SeqSet(e.failing) # NameSet(failing)
+               ELSE IF want = "fail" /\ e.failing # <<"?">> /\ SeqSet(e.failing) # NameSet(failing)
                     THEN "check_mass_balance(" \o e.tol \o "): the processes named as failing are not exactly those out of balance"
                     ELSE ""
       [] e.op = "check_flows" ->
@@ -80,7 +80,7 @@ Clause(e) ==
                want == IF flagged = {} THEN "ok" ELSE "fail"
            IN  IF e.outcome # want
                THEN "check_flows: reported " \o e.outcome \o ", the contract says " \o want
-               ELSE IF ~e.raise /\ SeqSet(e.flagged) # FlowNameSet(flagged)
+               ELSE IF ~e.raise /\ e.flagged # <<"?">> /\ SeqSet(e.flagged) # FlowNameSet(flagged)
                     THEN "check_flows: the flagged flows are not exactly the non-excepted flows with NaN or a negative entry"
                     ELSE ""
 
